@@ -8,6 +8,7 @@
 package simrt
 
 import (
+	"cmp"
 	"fmt"
 	"reflect"
 	"runtime"
@@ -55,7 +56,7 @@ type Result struct {
 	TraceHash  uint64
 	Trace      []string
 	Stalls     int
-	SelectMult int // selects entered with >=2 ready cases
+	SelectMult int         // selects entered with >=2 ready cases
 	SiteHits   map[int]int // scheduling decisions per site (site = a channel operation, select, go statement of the instrumented sources)
 }
 
@@ -899,3 +900,13 @@ func (m *HMutex) Lock() { raceDisable(); m.mu.Lock(); raceEnable() }
 
 //go:norace
 func (m *HMutex) Unlock() { raceDisable(); m.mu.Unlock(); raceEnable() }
+
+// SortedKeys returns the keys of m in ascending order (see the instrumenter's rangeMap).
+func SortedKeys[M ~map[K]V, K cmp.Ordered, V any](m M) []K {
+	ks := make([]K, 0, len(m))
+	for k := range m {
+		ks = append(ks, k)
+	}
+	sort.Slice(ks, func(i, j int) bool { return ks[i] < ks[j] })
+	return ks
+}
